@@ -4,7 +4,7 @@
    1-3 the formatter on lines put together: the tag scanner on a concatenation, "fine" messages (no ESC, no escaped tag,
        no backslash at the end), the undecorated rendering of a concatenation, the decorated one against it
    4-6 list facts; the formatter between two operations, good lines and their visible text; rows
-   7   the invariant: screen = stack (up to a relation on rows) and every section's row count = rows of its visible content
+   7   the invariant: screen = stack, every section's row count = rows of its visible content, the style stack is empty
    8-11 the theorems of Props/C15.v *)
 From Coq Require Import Lia Arith.
 From Clikit Require Import Base.Prelude Base.Res Base.Term Model.Conv Model.Markup Model.Section
@@ -350,18 +350,6 @@ Proof. induction l as [|x l IH]; cbn; [reflexivity|]. now rewrite IH. Qed.
 Lemma flat_map_flat_map {X Y Z} (f : Y -> list Z) (g : X -> list Y) l :
   flat_map f (flat_map g l) = flat_map (fun x => flat_map f (g x)) l.
 Proof. induction l as [|x l IH]; cbn; [reflexivity|]. now rewrite flat_map_app, IH. Qed.
-Lemma Forall2_flat_map {X Y} (R : Y -> Y -> Prop) (f g : X -> list Y) l :
-  (forall x, In x l -> Forall2 R (f x) (g x)) -> Forall2 R (flat_map f l) (flat_map g l).
-Proof.
-  induction l as [|x l IH]; intros H; cbn [flat_map]; [constructor|].
-  apply Forall2_app; [apply H; left; reflexivity|apply IH; intros y Hy; apply H; right; exact Hy].
-Qed.
-Lemma Forall2_refl {X} (R : X -> X -> Prop) : (forall x, R x x) -> forall l, Forall2 R l l.
-Proof. intros H. induction l; constructor; auto. Qed.
-Lemma F2_length {X Y} (R : X -> Y -> Prop) a b : Forall2 R a b -> length a = length b.
-Proof. induction 1; cbn; congruence. Qed.
-Lemma Forall2_eq_eq {X} (a b : list X) : Forall2 eq a b -> a = b.
-Proof. induction 1; [reflexivity|]. now subst. Qed.
 Lemma Forall_flat_map {X Y} (P : Y -> Prop) (g : X -> list Y) l : Forall (fun x => Forall P (g x)) l -> Forall P (flat_map g l).
 Proof. induction 1; cbn; [constructor|]. apply Forall_app. split; assumption. Qed.
 
@@ -411,16 +399,6 @@ Proof.
 Qed.
 Lemma lastn_droplast {X} n (l : list X) : l = droplast n l ++ lastn n l.
 Proof. unfold droplast, lastn. symmetry. apply firstn_skipn. Qed.
-Lemma set_nth_map (st : secs) i s s' : nth_error st i = Some s ->
-  map sc_indent (set_sec st i s') = set_nth i (sc_indent s') (map sc_indent st).
-Proof.
-  unfold set_sec. revert i. induction st as [|x r IH]; intros [|i] H; cbn in *; try discriminate; [reflexivity|].
-  f_equal. apply IH, H.
-Qed.
-Lemma set_nth_none (l : list nat) i n : nth_error l i = None -> set_nth i n l = l.
-Proof. revert i. induction l as [|x r IH]; intros [|i] H; cbn in *; try discriminate; try reflexivity. f_equal. apply IH, H. Qed.
-Lemma set_nth_same (l : list nat) i n : nth_error l i = Some n -> set_nth i n l = l.
-Proof. revert i. induction l as [|x r IH]; intros [|i] H; cbn in *; try discriminate; [now inversion H|]. f_equal. apply IH, H. Qed.
 
 Section W.
 Variable w : nat.
@@ -524,11 +502,6 @@ Proof.
   replace (0 + S n - 1) with n by lia. replace (S n + w - 1) with (1 * w + n) by lia.
   rewrite Nat.div_add_l by lia. lia.
 Qed.
-Lemma fill_fits : forall s cur, length cur + length s <= w -> fill w cur s = [cur ++ s].
-Proof.
-  induction s as [|c s IH]; intros cur H; cbn [fill]; [now rewrite app_nil_r|]. cbn [length] in H.
-  destruct (Nat.eqb_spec (length cur) w); [lia|]. rewrite IH by (rewrite app_length; cbn; lia). now rewrite <- app_assoc.
-Qed.
 Lemma feed_lines : forall vs R, Forall no_lf vs ->
   feed w (scr R) (flat_map (fun l => map Ch l ++ [Nl]) vs) = scr (R ++ flat_map line_rows vs).
 Proof.
@@ -591,70 +564,37 @@ Proof.
   rewrite feed_ansi, Hs, (emits_nl_lines _ Hv), (feed_lines _ R Hv), vrows_vis. reflexivity.
 Qed.
 
-(* the written text: its lines as the stream gets them (an empty line is not indented) *)
-Definition elines (n : nat) (text : str) : list str :=
-  if Nat.eqb n 0 then lines_of text else map (indent_line n) (lines_of text).
-Lemma indent_text_join n text : indent_text n text = join_with NL (elines n text).
-Proof. unfold indent_text, elines. destruct (Nat.eqb n 0); [now rewrite join_lines|reflexivity]. Qed.
-Lemma elines_ok n text : Forall okline (lines_of text) -> Forall okline (elines n text) /\ elines n text <> [].
+(* the written text: its lines as the stream gets them and as add_content keeps them *)
+Lemma indent_text_join n text : indent_text n text = join_with NL (content_lines n text).
+Proof. unfold indent_text, content_lines. destruct (Nat.eqb n 0); [now rewrite join_lines|reflexivity]. Qed.
+Lemma content_lines_ok n text : Forall okline (lines_of text) -> Forall okline (content_lines n text) /\ content_lines n text <> [].
 Proof.
-  intros H. pose proof (lines_of_ne text) as Hne. unfold elines. destruct (Nat.eqb n 0); [split; assumption|]. split.
+  intros H. pose proof (lines_of_ne text) as Hne. unfold content_lines. destruct (Nat.eqb n 0); [split; assumption|]. split.
   - apply Forall_map. eapply Forall_impl; [|exact H]. intros l Hl. unfold indent_line. destruct l; [exact Hl|].
     apply okline_indent, Hl.
   - destruct (lines_of text); [contradiction|discriminate].
 Qed.
-Lemma content_lines_ok n text : Forall okline (lines_of text) -> Forall okline (content_lines n text).
-Proof.
-  intros H. unfold content_lines. destruct (Nat.eqb n 0); [exact H|]. apply Forall_map.
-  eapply Forall_impl; [|exact H]. intros l Hl. apply okline_indent, Hl.
-Qed.
 Lemma write_ok f n text R : fmt_ok f -> Forall okline (lines_of text) ->
   exists f' a, format f (indent_text n text) None = Ok (f', a) /\ fmt_ok f' /\
-               feed w (scr R) (emits_of_ansi a ++ [Nl]) = scr (R ++ vrows (elines n text)).
+               feed w (scr R) (emits_of_ansi a ++ [Nl]) = scr (R ++ vrows (content_lines n text)).
 Proof.
-  intros Hf H. destruct (elines_ok n text H) as [Hes Hne]. rewrite indent_text_join.
+  intros Hf H. destruct (content_lines_ok n text H) as [Hes Hne]. rewrite indent_text_join.
   destruct (join_plain _ Hne Hes) as [H1 H2]. destruct (deco_of_plain _ _ f H1 H2 Hf) as (f' & a & E & Hf' & Hs).
   exists f', a. split; [exact E|]. split; [exact Hf'|].
-  assert (Forall no_lf (map vis (elines n text))) as Hv.
+  assert (Forall no_lf (map vis (content_lines n text))) as Hv.
   { apply Forall_map. eapply Forall_impl; [|exact Hes]. exact vis_no_lf. }
-  assert (map vis (elines n text) <> []) as Hne' by (destruct (elines n text); [contradiction|discriminate]).
+  assert (map vis (content_lines n text) <> []) as Hne' by (destruct (content_lines n text); [contradiction|discriminate]).
   rewrite feed_drop_sgr, drop_sgr_app, drop_sgr_ansi, Hs. change (drop_sgr [Nl]) with [Nl].
   rewrite (emits_join _ Hne' Hv), (feed_lines _ R Hv), vrows_vis. reflexivity.
 Qed.
 
-(* ---------- 7. the invariant: the screen is the stack, up to a relation on rows ---------- *)
-Variable exact : bool.
-Variable Rel : row -> row -> Prop.
-Hypothesis Rel_refl : forall r, Rel r r.
-Hypothesis Rel_blank : exact = false -> forall n, n <= w -> Rel [] (blanks n).
-
-Lemma good_text_spec n text : good_textb exact w sty n text = true ->
-  Forall okline (lines_of text) /\ (has_empty (lines_of text) = true -> n = 0 \/ (exact = false /\ n <= w)).
+(* ---------- 7. the invariant: the screen is the stack, every row count is right, the style stack is empty ---------- *)
+Lemma good_text_spec text : good_textb sty text = true -> Forall okline (lines_of text).
 Proof.
-  unfold good_textb. intros H. apply Bool.andb_true_iff in H as [H1 H2]. split.
-  - rewrite forallb_forall in H1. apply Forall_forall. intros l Hl. apply good_line_ok, H1, Hl.
-  - intros He. rewrite He in H2. cbn [negb orb] in H2. apply Bool.orb_true_iff in H2 as [H2|H2].
-    + left. now apply Nat.eqb_eq.
-    + right. apply Bool.andb_true_iff in H2 as [E L]. split; [now destruct exact|now apply Nat.leb_le].
-Qed.
-(* what is written against what is kept: the same rows, but for the blanks of an indented empty line *)
-Lemma rows_rel n text : good_textb exact w sty n text = true ->
-  Forall2 Rel (vrows (elines n text)) (vrows (content_lines n text)).
-Proof.
-  intros H. destruct (good_text_spec n text H) as [Hok Hb]. unfold elines, content_lines.
-  destruct (Nat.eqb_spec n 0) as [->|Hn]; [apply Forall2_refl, Rel_refl|].
-  unfold vrows. rewrite !flat_map_map. apply Forall2_flat_map. intros l Hl.
-  destruct l as [|c l]; [|apply Forall2_refl, Rel_refl].
-  cbn [indent_line]. assert (has_empty (lines_of text) = true) as He.
-  { unfold has_empty. apply existsb_exists. exists []. split; [exact Hl|reflexivity]. }
-  destruct (Hb He) as [E|[E L]]; [contradiction|].
-  destruct (okline_indent n [] (proj1 okline_nil)) as [_ HV]. rewrite HV, (proj2 okline_nil), app_nil_r.
-  unfold line_rows. rewrite (fill_fits (blanks n) []) by (unfold blanks; rewrite repeat_length; cbn; lia).
-  cbn. constructor; [apply Rel_blank; assumption|constructor].
+  unfold good_textb. intros H. rewrite forallb_forall in H. apply Forall_forall. intros l Hl. apply good_line_ok, H, Hl.
 Qed.
 
-Definition Inv (st : secs) (f : formatter) (t : term) : Prop :=
-  exists R, t = scr R /\ Forall2 Rel R (stacked st) /\ Forall sec_ok st /\ fmt_ok f.
+Definition Inv (st : secs) (f : formatter) (t : term) : Prop := t = screen st /\ Forall sec_ok st /\ fmt_ok f.
 
 Lemma Forall_split (st : secs) i s : Forall sec_ok st -> nth_error st i = Some s ->
   Forall sec_ok (firstn i st) /\ sec_ok s /\ Forall sec_ok (skipn (S i) st).
@@ -662,51 +602,40 @@ Proof.
   intros Hok Hn. destruct (split_at st i s Hn) as [E _]. rewrite E in Hok.
   apply Forall_app in Hok as [H1 H2]. inversion H2; subst. auto.
 Qed.
-Lemma indent_same (st : secs) i s s' : nth_error st i = Some s -> sc_indent s' = sc_indent s ->
-  map sc_indent (set_sec st i s') = map sc_indent st.
-Proof.
-  intros Hn E. rewrite (set_nth_map st i s s' Hn), E. apply set_nth_same. now rewrite (map_nth_error sc_indent i st Hn).
-Qed.
 
 Lemma write_step st f t i text nl s :
-  Inv st f t -> nth_error st i = Some s -> good_textb exact w sty (sc_indent s) text = true ->
-  exists st' f' es, sstep_ansi w st f (SWrite i text nl) = Ok (st', f', es) /\ Inv st' f' (feed w t es) /\
-                    map sc_indent st' = map sc_indent st.
+  Inv st f t -> nth_error st i = Some s -> good_textb sty text = true ->
+  exists st' f' es, sstep_ansi w st f (SWrite i text nl) = Ok (st', f', es) /\ Inv st' f' (feed w t es).
 Proof.
-  intros (R & -> & HR & Hok & Hf) Hn Hg. destruct (good_text_spec _ _ Hg) as [Hlines _].
+  intros (-> & Hok & Hf) Hn Hg. pose proof (good_text_spec _ Hg) as Hlines.
   destruct (Forall_split st i s Hok Hn) as (HA & [Hl Hc] & HB). destruct (split_at st i s Hn) as [E _].
   cbn [sstep_ansi]. rewrite Hn. unfold erased, pop_ctl, newer.
   set (A := firstn i st) in *. set (B := skipn (S i) st) in *. set (n := sc_indent s) in *.
-  rewrite E, stacked_app in HR. cbn [stacked flat_map] in HR. fold (stacked B) in HR.
-  apply Forall2_app_inv_r in HR as (RA & R' & HRA & HR & ->). apply Forall2_app_inv_r in HR as (Rs & RB & HRs & HRB & ->).
-  pose proof (content_lines_ok n text Hlines) as Hcl.
+  destruct (content_lines_ok n text Hlines) as [Hcl _].
   destruct (measure_ok (content_lines n text) f (sc_lines s) Hf Hcl) as (f1 & E1 & Hf1). rewrite E1. cbn [bind fst snd].
-  destruct (write_ok f1 n text (RA ++ Rs) Hf1 Hlines) as (f2 & a & E2 & Hf2 & F2). rewrite E2. cbn [bind fst snd].
-  destruct (reprint_ok B f2 ((RA ++ Rs) ++ vrows (elines n text)) Hf2 HB) as (f3 & a2 & E3 & Hf3 & F3). rewrite E3. cbn [bind fst snd].
-  eexists _, _, _. split; [reflexivity|]. split.
-  - exists (RA ++ (Rs ++ vrows (elines n text)) ++ stacked B). split.
-    + rewrite !feed_app. cbn [Nat.add]. rewrite (sum_lines B HB), <- (F2_length _ _ _ HRB).
-      rewrite (app_assoc RA Rs RB), pop_feed. rewrite <- (feed_app w _ (emits_of_ansi a) [Nl]), F2, F3.
-      now rewrite <- !app_assoc.
-    + split.
-      * unfold set_sec. fold A B. rewrite stacked_app. cbn [stacked flat_map]. fold (stacked B).
-        apply Forall2_app; [exact HRA|]. apply Forall2_app; [|apply Forall2_refl, Rel_refl].
-        unfold sec_rows at 1. cbn [sc_content]. rewrite vrows_app. apply Forall2_app; [exact HRs|apply rows_rel, Hg].
-      * split; [|exact Hf3]. unfold set_sec. fold A B. apply Forall_app. split; [exact HA|]. constructor; [|exact HB].
-        split; cbn [sc_lines sc_content].
-        -- unfold sec_rows. cbn [sc_content]. rewrite vrows_app, app_length, Hl. reflexivity.
-        -- apply Forall_app. split; assumption.
-  - apply (indent_same st i s _ Hn). reflexivity.
+  destruct (write_ok f1 n text (stacked A ++ sec_rows s) Hf1 Hlines) as (f2 & a & E2 & Hf2 & F2). rewrite E2. cbn [bind fst snd].
+  destruct (reprint_ok B f2 ((stacked A ++ sec_rows s) ++ vrows (content_lines n text)) Hf2 HB) as (f3 & a2 & E3 & Hf3 & F3).
+  rewrite E3. cbn [bind fst snd].
+  eexists _, _, _. split; [reflexivity|]. split; [|split; [|exact Hf3]].
+  - unfold screen. rewrite E at 1. rewrite stacked_app. cbn [stacked flat_map]. fold (stacked B).
+    rewrite !feed_app. cbn [Nat.add]. rewrite (sum_lines B HB).
+    rewrite (app_assoc (stacked A) (sec_rows s) (stacked B)), pop_feed.
+    rewrite <- (feed_app w _ (emits_of_ansi a) [Nl]), F2, F3.
+    unfold set_sec. fold A B. rewrite stacked_app. cbn [stacked flat_map]. fold (stacked B).
+    unfold sec_rows at 2. cbn [sc_content]. rewrite vrows_app. fold (sec_rows s). now rewrite <- !app_assoc.
+  - unfold set_sec. fold A B. apply Forall_app. split; [exact HA|]. constructor; [|exact HB].
+    split; cbn [sc_lines sc_content].
+    + unfold sec_rows. cbn [sc_content]. rewrite vrows_app, app_length, Hl. reflexivity.
+    + apply Forall_app. split; assumption.
 Qed.
 
 Lemma clear_step st f t i n s :
   Inv st f t -> nth_error st i = Some s ->
-  exists st' f' es, sstep_ansi w st f (SClear i n) = Ok (st', f', es) /\ Inv st' f' (feed w t es) /\
-                    map sc_indent st' = map sc_indent st.
+  exists st' f' es, sstep_ansi w st f (SClear i n) = Ok (st', f', es) /\ Inv st' f' (feed w t es).
 Proof.
-  intros (R & -> & HR & Hok & Hf) Hn. cbn [sstep_ansi]. rewrite Hn.
+  intros (-> & Hok & Hf) Hn. cbn [sstep_ansi]. rewrite Hn.
   destruct (sc_content s) as [|c0 cs] eqn:Ec.
-  { eexists _, _, _. split; [reflexivity|]. split; [|reflexivity]. exists R. auto. }
+  { eexists _, _, _. split; [reflexivity|]. repeat split; auto; apply Hf. }
   rewrite <- Ec.
   destruct (Forall_split st i s Hok Hn) as (HA & [Hl Hc] & HB). destruct (split_at st i s Hn) as [E _].
   unfold erased, pop_ctl, newer. set (A := firstn i st) in *. set (B := skipn (S i) st) in *.
@@ -726,135 +655,80 @@ Proof.
     - exists [], (sc_content s), f. split; [reflexivity|]. split; [exact Hf|]. now rewrite Hl. }
   rewrite Hkr. cbn [bind].
   assert (sec_rows s = vrows keep ++ vrows gone) as Hrows by (unfold sec_rows; rewrite Hsplit; apply vrows_app).
-  rewrite E, stacked_app in HR. cbn [stacked flat_map] in HR. fold (stacked B) in HR. rewrite Hrows in HR.
-  apply Forall2_app_inv_r in HR as (RA & R' & HRA & HR & ->). apply Forall2_app_inv_r in HR as (Rs & RB & HRs & HRB & ->).
-  apply Forall2_app_inv_r in HRs as (Rk & Rg & HRk & HRg & ->).
-  destruct (reprint_ok B f1 (RA ++ Rk) Hf1 HB) as (f3 & a2 & E3 & Hf3 & F3). rewrite E3. cbn [bind fst snd].
-  eexists _, _, _. split; [reflexivity|]. split.
-  - exists ((RA ++ Rk) ++ stacked B). split.
-    + rewrite feed_app, (sum_lines B HB), <- (F2_length _ _ _ HRB), <- (F2_length _ _ _ HRg), <- app_length.
-      replace (RA ++ (Rk ++ Rg) ++ RB) with ((RA ++ Rk) ++ (Rg ++ RB)) by (now rewrite <- !app_assoc).
-      rewrite pop_feed. exact F3.
-    + split.
-      * unfold set_sec. fold A B. rewrite stacked_app. cbn [stacked flat_map]. fold (stacked B).
-        rewrite <- app_assoc. apply Forall2_app; [exact HRA|]. apply Forall2_app; [exact HRk|apply Forall2_refl, Rel_refl].
-      * split; [|exact Hf3]. unfold set_sec. fold A B. apply Forall_app. split; [exact HA|]. constructor; [|exact HB].
-        split; cbn [sc_lines sc_content].
-        -- unfold sec_rows at 1. cbn [sc_content]. rewrite Hl, Hrows, app_length. lia.
-        -- rewrite Hsplit in Hc. apply Forall_app in Hc. tauto.
-  - apply (indent_same st i s _ Hn). reflexivity.
+  destruct (reprint_ok B f1 (stacked A ++ vrows keep) Hf1 HB) as (f3 & a2 & E3 & Hf3 & F3). rewrite E3. cbn [bind fst snd].
+  eexists _, _, _. split; [reflexivity|]. split; [|split; [|exact Hf3]].
+  - unfold screen. rewrite E at 1. rewrite stacked_app. cbn [stacked flat_map]. fold (stacked B). rewrite Hrows.
+    rewrite feed_app, (sum_lines B HB), <- app_length.
+    replace (stacked A ++ (vrows keep ++ vrows gone) ++ stacked B) with ((stacked A ++ vrows keep) ++ (vrows gone ++ stacked B))
+      by (now rewrite <- !app_assoc).
+    rewrite pop_feed, F3. unfold set_sec. fold A B. rewrite stacked_app. cbn [stacked flat_map]. fold (stacked B).
+    unfold sec_rows at 1. cbn [sc_content]. now rewrite <- !app_assoc.
+  - unfold set_sec. fold A B. apply Forall_app. split; [exact HA|]. constructor; [|exact HB].
+    split; cbn [sc_lines sc_content].
+    + unfold sec_rows at 1. cbn [sc_content]. rewrite Hl, Hrows, app_length. lia.
+    + rewrite Hsplit in Hc. apply Forall_app in Hc. tauto.
 Qed.
 
 (* one operation *)
-Definition next_inds (o : sop) (inds : list nat) : list nat :=
-  match o with SCreate => inds ++ [0] | SIndent i n => set_nth i n inds | _ => inds end.
-Definition good_op (inds : list nat) (o : sop) : bool :=
-  match o with
-  | SWrite i text _ | SOverwrite i text =>
-      match nth_error inds i with Some n => good_textb exact w sty n text | None => true end
-  | _ => true
-  end.
-Lemma good_ops_cons inds o r :
-  good_opsb exact w sty inds (o :: r) = good_op inds o && good_opsb exact w sty (next_inds o inds) r.
-Proof. destruct o; reflexivity. Qed.
-Lemma text_cond (st : secs) i s text : nth_error st i = Some s ->
-  match nth_error (map sc_indent st) i with Some n => good_textb exact w sty n text | None => true end = true ->
-  good_textb exact w sty (sc_indent s) text = true.
-Proof. intros Hn. now rewrite (map_nth_error sc_indent i st Hn). Qed.
-
-Lemma step_inv st f t o : Inv st f t -> good_op (map sc_indent st) o = true ->
-  exists st' f' es, sstep w st f o = Ok (st', f', es) /\ Inv st' f' (feed w t es) /\
-                    map sc_indent st' = next_inds o (map sc_indent st).
+Lemma step_inv st f t o : Inv st f t -> good_opb sty o = true ->
+  exists st' f' es, sstep w st f o = Ok (st', f', es) /\ Inv st' f' (feed w t es).
 Proof.
-  intros HI Hg. destruct o as [|i text nl|i text|i n|i n]; cbn [sstep next_inds good_op] in *.
+  intros HI Hg. destruct o as [|i text nl|i text|i n|i n]; cbn [sstep good_opb] in *.
   - (* create *)
-    cbn [sstep_ansi]. eexists _, _, _. split; [reflexivity|]. split; [|now rewrite map_app].
-    destruct HI as (R & -> & HR & Hok & Hf). exists R. split; [reflexivity|]. split.
-    + rewrite stacked_app. cbn. now rewrite app_nil_r.
-    + split; [|exact Hf]. apply Forall_app. split; [exact Hok|]. constructor; [|constructor]. split; cbn; constructor.
+    cbn [sstep_ansi]. eexists _, _, _. split; [reflexivity|].
+    destruct HI as (-> & Hok & Hf). split; [|split; [|exact Hf]].
+    + unfold screen. rewrite stacked_app. cbn. now rewrite app_nil_r.
+    + apply Forall_app. split; [exact Hok|]. constructor; [|constructor]. split; cbn; constructor.
   - destruct (nth_error st i) as [s|] eqn:Hn.
-    + apply (write_step st f t i text nl s HI Hn), (text_cond st i s text Hn Hg).
-    + cbn [sstep_ansi]. rewrite Hn. eexists _, _, _. split; [reflexivity|]. split; [exact HI|reflexivity].
+    + apply (write_step st f t i text nl s HI Hn Hg).
+    + cbn [sstep_ansi]. rewrite Hn. eexists _, _, _. split; [reflexivity|exact HI].
   - (* overwrite = clear, then write_line *)
     destruct (nth_error st i) as [s|] eqn:Hn.
-    + destruct (clear_step st f t i None s HI Hn) as (st1 & f1 & e1 & E1 & HI1 & Hind1). rewrite E1. cbn [bind fst snd].
-      assert (exists s1, nth_error st1 i = Some s1 /\ sc_indent s1 = sc_indent s) as (s1 & Hn1 & Hs1).
-      { pose proof (map_nth_error sc_indent i st Hn) as H0. rewrite <- Hind1 in H0.
-        destruct (nth_error st1 i) as [s1|] eqn:E0.
-        - exists s1. split; [reflexivity|]. rewrite (map_nth_error sc_indent i st1 E0) in H0. now inversion H0.
-        - apply nth_error_None in E0. assert (nth_error (map sc_indent st1) i = None) as H1 by (apply nth_error_None; now rewrite map_length).
-          congruence. }
-      pose proof (text_cond st i s text Hn Hg) as Hg1. rewrite <- Hs1 in Hg1.
-      destruct (write_step st1 f1 _ i text true s1 HI1 Hn1 Hg1) as (st2 & f2 & e2 & E2 & HI2 & Hind2). rewrite E2. cbn [bind fst snd].
-      eexists _, _, _. split; [reflexivity|]. split; [now rewrite feed_app|congruence].
+    + destruct (clear_step st f t i None s HI Hn) as (st1 & f1 & e1 & E1 & HI1). rewrite E1. cbn [bind fst snd].
+      destruct (nth_error st1 i) as [s1|] eqn:Hn1.
+      * destruct (write_step st1 f1 _ i text true s1 HI1 Hn1 Hg) as (st2 & f2 & e2 & E2 & HI2). rewrite E2. cbn [bind fst snd].
+        eexists _, _, _. split; [reflexivity|]. now rewrite feed_app.
+      * cbn [sstep_ansi]. rewrite Hn1. cbn [bind fst snd]. eexists _, _, _. split; [reflexivity|]. now rewrite app_nil_r.
     + cbn [sstep_ansi]. rewrite Hn. cbn [bind fst snd sstep_ansi]. rewrite Hn.
-      eexists _, _, _. split; [reflexivity|]. split; [exact HI|reflexivity].
+      eexists _, _, _. split; [reflexivity|exact HI].
   - destruct (nth_error st i) as [s|] eqn:Hn.
     + apply (clear_step st f t i n s HI Hn).
-    + cbn [sstep_ansi]. rewrite Hn. eexists _, _, _. split; [reflexivity|]. split; [exact HI|reflexivity].
+    + cbn [sstep_ansi]. rewrite Hn. eexists _, _, _. split; [reflexivity|exact HI].
   - (* indent: nothing on the screen changes *)
     cbn [sstep_ansi]. destruct (nth_error st i) as [s|] eqn:Hn.
-    + eexists _, _, _. split; [reflexivity|]. split; [|exact (set_nth_map st i s (with_indent s n) Hn)].
-      destruct HI as (R & -> & HR & Hok & Hf). destruct (Forall_split st i s Hok Hn) as (HA & [Hl Hc] & HB).
-      destruct (split_at st i s Hn) as [E _]. exists R. split; [reflexivity|].
+    + eexists _, _, _. split; [reflexivity|].
+      destruct HI as (-> & Hok & Hf). destruct (Forall_split st i s Hok Hn) as (HA & [Hl Hc] & HB).
+      destruct (split_at st i s Hn) as [E _].
       assert (stacked (set_sec st i (with_indent s n)) = stacked st) as ES.
       { rewrite E at 2. unfold set_sec. now rewrite !stacked_app. }
-      rewrite ES. split; [exact HR|]. split; [|exact Hf]. unfold set_sec. apply Forall_app. split; [exact HA|].
+      split; [unfold screen; now rewrite ES|]. split; [|exact Hf]. unfold set_sec. apply Forall_app. split; [exact HA|].
       constructor; [|exact HB]. split; assumption.
-    + eexists _, _, _. split; [reflexivity|]. split; [exact HI|].
-      symmetry. apply set_nth_none. apply nth_error_None. rewrite map_length. now apply nth_error_None.
+    + eexists _, _, _. split; [reflexivity|exact HI].
 Qed.
 
-Lemma run_inv ops : forall st f t, Inv st f t -> good_opsb exact w sty (map sc_indent st) ops = true ->
+Lemma run_inv ops : forall st f t, Inv st f t -> good_opsb sty ops = true ->
   exists st' f' es, srun true w st f ops = Ok (st', f', es) /\ Inv st' f' (feed w t es).
 Proof.
   induction ops as [|o r IH]; intros st f t HI Hg; cbn [srun].
   - eexists _, _, _. split; [reflexivity|exact HI].
-  - rewrite good_ops_cons in Hg. apply Bool.andb_true_iff in Hg as [Hg1 Hg2].
-    destruct (step_inv st f t o HI Hg1) as (st1 & f1 & e1 & E1 & HI1 & Hind). rewrite E1. cbn [bind fst snd].
-    rewrite <- Hind in Hg2. destruct (IH st1 f1 _ HI1 Hg2) as (st2 & f2 & e2 & E2 & HI2). rewrite E2. cbn [bind fst snd].
+  - cbn [good_opsb forallb] in Hg. apply Bool.andb_true_iff in Hg as [Hg1 Hg2].
+    destruct (step_inv st f t o HI Hg1) as (st1 & f1 & e1 & E1 & HI1). rewrite E1. cbn [bind fst snd].
+    destruct (IH st1 f1 _ HI1 Hg2) as (st2 & f2 & e2 & E2 & HI2). rewrite E2. cbn [bind fst snd].
     eexists _, _, _. split; [reflexivity|]. now rewrite feed_app.
 Qed.
 End W.
 
-(* ---------- 8. the theorems ---------- *)
-(* exactly: Rel = eq *)
+(* ---------- 8. the theorem ---------- *)
 Lemma screen_is_stack_lemma w : 1 <= w -> forall f0 ops, is_ansi f0 -> f_stack f0 = [] ->
-  good_opsb true w (f_styles f0) [] ops = true ->
+  good_opsb (f_styles f0) ops = true ->
   exists st f es, srun true w [] f0 ops = Ok (st, f, es) /\
     feed w term_init es = screen w (f_styles f0) st /\ Forall (sec_ok w (f_styles f0)) st /\ fmt_ok (f_styles f0) f.
 Proof.
   intros w_pos f0 ops Hk Hs Hg.
-  assert (Inv w (f_styles f0) eq [] f0 term_init) as H0.
-  { exists []. split; [reflexivity|]. split; [constructor|]. split; [constructor|]. repeat split; auto. }
-  destruct (run_inv w w_pos (f_styles f0) true eq (fun r => eq_refl) ltac:(discriminate) ops [] f0 term_init H0 Hg)
-    as (st & f & es & E & (R & Ht & HR & Hok & Hf)).
-  exists st, f, es. split; [exact E|]. apply Forall2_eq_eq in HR. subst R. auto.
-Qed.
-
-(* up to trailing blanks: an empty line written under an indentation shows its blanks only when printed again *)
-Fixpoint rstrip_blank (r : list N) : list N :=
-  match r with
-  | [] => []
-  | c :: t => match rstrip_blank t with [] => if N.eqb c BLANK then [] else [c] | t' => c :: t' end
-  end.
-Definition row_eqv (a b : list N) : Prop := rstrip_blank a = rstrip_blank b.
-Lemma rstrip_blanks n : rstrip_blank (blanks n) = [].
-Proof. unfold blanks. induction n; cbn; [reflexivity|]. now rewrite IHn. Qed.
-Lemma screen_is_stack_blank_lemma w : 1 <= w -> forall f0 ops, is_ansi f0 -> f_stack f0 = [] ->
-  good_opsb false w (f_styles f0) [] ops = true ->
-  exists st f es R, srun true w [] f0 ops = Ok (st, f, es) /\
-    feed w term_init es = scr R /\ Forall2 row_eqv R (stacked w (f_styles f0) st) /\
-    Forall (sec_ok w (f_styles f0)) st /\ fmt_ok (f_styles f0) f.
-Proof.
-  intros w_pos f0 ops Hk Hs Hg.
-  assert (Inv w (f_styles f0) row_eqv [] f0 term_init) as H0.
-  { exists []. split; [reflexivity|]. split; [constructor|]. split; [constructor|]. repeat split; auto. }
-  assert (false = false -> forall n, n <= w -> row_eqv [] (blanks n)) as Hb.
-  { intros _ n _. unfold row_eqv. now rewrite rstrip_blanks. }
-  destruct (run_inv w w_pos (f_styles f0) false row_eqv (fun r => eq_refl) Hb ops [] f0 term_init H0 Hg)
-    as (st & f & es & E & (R & Ht & HR & Hok & Hf)).
-  exists st, f, es, R. auto.
+  assert (Inv w (f_styles f0) [] f0 term_init) as H0.
+  { split; [reflexivity|]. split; [constructor|]. repeat split; auto. }
+  destruct (run_inv w w_pos (f_styles f0) ops [] f0 term_init H0 Hg) as (st & f & es & E & Ht & Hok & Hf).
+  exists st, f, es. auto.
 Qed.
 
 (* ---------- 9. the special case: plain texts, indentation 0 ---------- *)
@@ -888,28 +762,16 @@ Proof.
   - apply forallb_forall. intros c Hc. rewrite Forall_forall in H. destruct (H c Hc) as (_ & _ & He & _).
     destruct (N.eqb_spec c ESC); [contradiction|reflexivity].
 Qed.
-Lemma plain_text_good exact w sty text : plain_text text -> good_textb exact w sty 0 text = true.
+Lemma plain_text_good sty text : plain_text text -> good_textb sty text = true.
 Proof.
-  intros H. unfold good_textb. rewrite Nat.eqb_refl, Bool.orb_true_r. cbn [orb]. rewrite Bool.andb_true_r.
+  intros H. unfold good_textb.
   apply forallb_forall. intros l Hl. pose proof (lines_of_P _ text H) as HP. pose proof (lines_of_no_lf text) as HN.
   rewrite Forall_forall in HP, HN. apply plain_line_good; auto.
 Qed.
-Lemma set_nth_zero i inds : Forall (eq 0) inds -> Forall (eq 0) (set_nth i 0 inds).
-Proof. revert i. induction inds as [|x r IH]; intros [|i] H; cbn; inversion H; subst; constructor; auto. Qed.
-Lemma plain_ops_good exact w sty ops : forall inds, Forall plain_op ops -> Forall (eq 0) inds ->
-  good_opsb exact w sty inds ops = true.
+Lemma plain_ops_good sty ops : Forall plain_op ops -> good_opsb sty ops = true.
 Proof.
-  induction ops as [|o r IH]; intros inds H Hi; [reflexivity|]. inversion H as [|? ? Ho Hr]; subst.
-  destruct o as [|i text nl|i text|i n|i n]; cbn [good_opsb plain_op] in *.
-  - apply IH; [exact Hr|]. apply Forall_app. split; [exact Hi|repeat constructor].
-  - rewrite (IH inds Hr Hi), Bool.andb_true_r. destruct (nth_error inds i) as [n|] eqn:E; [|reflexivity].
-    assert (n = 0) as -> by (rewrite Forall_forall in Hi; symmetry; apply Hi; eapply nth_error_In; exact E).
-    apply plain_text_good, Ho.
-  - rewrite (IH inds Hr Hi), Bool.andb_true_r. destruct (nth_error inds i) as [n|] eqn:E; [|reflexivity].
-    assert (n = 0) as -> by (rewrite Forall_forall in Hi; symmetry; apply Hi; eapply nth_error_In; exact E).
-    apply plain_text_good, Ho.
-  - apply IH; assumption.
-  - subst n. apply IH; [exact Hr|]. apply set_nth_zero, Hi.
+  unfold good_opsb. intros H. apply forallb_forall. intros o Ho. rewrite Forall_forall in H. specialize (H o Ho).
+  destruct o; cbn [good_opb plain_op] in *; try reflexivity; apply plain_text_good, H.
 Qed.
 
 (* the content lines of a run of plain operations are the lines written: plain, not indented *)
@@ -984,7 +846,7 @@ Lemma screen_is_stack_plain_lemma w : 1 <= w -> forall f0 ops, is_ansi f0 -> f_s
     Forall (fun s => sc_lines s = length (flat_map (fill w []) (sc_content s)) /\ sc_indent s = 0) st.
 Proof.
   intros w_pos f0 ops Hk Hs Hp.
-  destruct (screen_is_stack_lemma w w_pos f0 ops Hk Hs (plain_ops_good true w (f_styles f0) ops [] Hp (Forall_nil _)))
+  destruct (screen_is_stack_lemma w w_pos f0 ops Hk Hs (plain_ops_good (f_styles f0) ops Hp))
     as (st & f & es & E & Ht & Hok & _).
   pose proof (run_content w ops [] f0 st f es Hp (Forall_nil _) E) as Hc.
   exists st, f, es. split; [exact E|]. split.
